@@ -411,7 +411,7 @@ func collectMemOps(f *ssa.Function, want func(*ssa.Function) bool, localToField 
 }
 
 func ruleRelease(c *Ctx) *RuleResult {
-	r := newResult("R-RELEASE", "memory is handed back exactly as it was taken: (1) on every path through every function that releases an amount more than once (explicit calls, deferred calls and deferred closures replayed at the exits; amounts value-numbered, copies and reloads of an unmodified variable being one number, the constant 0 ignored) the number of releases of an amount never exceeds its acquisitions plus one if it was handed over by the caller; (2) each release in a destructor has a require in its constructor with the same element size, the same count field and the same guarding flags (LuaCont, coroutine stack); (3) every other Release* site is table-listed with the require it gives back; a new, unpaired release is reported")
+	r := newResult("R-RELEASE", "memory is handed back exactly as it was taken: (1) on every path through every function that releases an amount more than once (explicit calls, deferred calls and deferred closures replayed at the exits; amounts value-numbered, copies and reloads of an unmodified variable being one number, the constant 0 ignored) the number of releases of an amount never exceeds its acquisitions plus one if it was handed over by the caller; (2) each release in a destructor has a require in its constructor with the same element size, the same count field and the same guarding flags (LuaCont, coroutine stack); (3) every other Release* site is table-listed with the require it gives back; a new, unpaired release is reported; (4) ReleaseMem aborts (panic, termination) only where the context is established to have no parent: contexts nest (pcall pushes one) and a coroutine frame or stack required outside is legitimately released inside")
 	p := c.P
 	if p.Config.Tags == "noquotas" {
 		r.note("noquotas build: Require*/Release* are no-ops; rule evaluated for shape only")
@@ -548,6 +548,57 @@ func ruleRelease(c *Ctx) *RuleResult {
 			}
 			r.fail("unpaired-release:"+key, p.InstrPos(ins), fmt.Sprintf("%s hands memory back to the quota but is not a known release site: name the require it pairs with (releaseTable) or it may release memory that was never charged", key))
 		})
+	}
+	// ---- (4) a release may run in a context nested inside the one that took the memory
+	if p.Config.Tags != "noquotas" {
+		rm := p.Func("runtime", "(*runtimeContextManager).ReleaseMem")
+		if rm == nil || rm.Blocks == nil || len(rm.Params) == 0 {
+			r.broken("anchor unresolved: (*runtimeContextManager).ReleaseMem")
+		} else {
+			g := newGuardCtx(rm)
+			isParentOfRecv := func(v ssa.Value) bool {
+				u, ok := v.(*ssa.UnOp)
+				if !ok || u.Op != token.MUL {
+					return false
+				}
+				fa, ok := u.X.(*ssa.FieldAddr)
+				if !ok || fa.X != rm.Params[0] {
+					return false
+				}
+				_, _, fn := fieldOfAddr(fa)
+				return fn == "parent"
+			}
+			nAbort := 0
+			for _, b := range rm.Blocks {
+				for _, ins := range b.Instrs {
+					abort := ""
+					switch x := ins.(type) {
+					case *ssa.Panic:
+						abort = "panic"
+					case ssa.CallInstruction:
+						if cal := x.Common().StaticCallee(); cal != nil && (cal.Name() == "TerminateContext" || cal.Name() == "KillContext") {
+							abort = cal.Name()
+						}
+					}
+					if abort == "" {
+						continue
+					}
+					nAbort++
+					rootOnly := false
+					for _, e := range g.MustEdges(b) {
+						if rel, ok := e.Relation(); ok && rel.Op == token.EQL && ((isParentOfRecv(rel.A) && isNilConst(rel.B)) || (isParentOfRecv(rel.B) && isNilConst(rel.A))) {
+							rootOnly = true
+						}
+					}
+					if rootOnly {
+						r.ok("(4) ReleaseMem: " + abort + " only where the context has no parent; in a nested context the excess is not an error")
+					} else {
+						r.fail("nested-release-aborts:(*runtime.runtimeContextManager).ReleaseMem", p.InstrPos(ins), "ReleaseMem reaches "+abort+" without having established that the context has no parent: memory required in an enclosing context and released in a nested one (a coroutine created outside a pcall and ending, or returning from a frame, inside it; pcall pushes a context) exceeds what the nested context has used, so a conforming program crashes the host in a memory-limited context")
+					}
+				}
+			}
+			r.count("release_abort_sites", nAbort)
+		}
 	}
 	r.count("release_call_sites", total)
 	r.floor("release_call_sites", 15)
